@@ -17,9 +17,9 @@ import (
 // Roles holds the resolved functions. A nil entry has an error in Errs.
 type Roles struct {
 	Verify, VerifyWithOptions, VerifyBatch, Sign, PrivSign, NewKeyFromSeed, GenerateKey *ssa.Function
-	VerifyCore, NoPanic, SignCore, ScMin, SmallOrder, Unwrap, CheckHash, WriteDom2     *ssa.Function
-	FailBatch, BoolToRet, Msm, BatchNeutral                                            *ssa.Function
-	Errs                                                                               map[string]string
+	VerifyCore, NoPanic, SignCore, ScMin, SmallOrder, Unwrap, CheckHash, WriteDom2      *ssa.Function
+	FailBatch, BoolToRet, Msm, BatchNeutral                                             *ssa.Function
+	Errs                                                                                map[string]string
 }
 
 func sigString(f *ssa.Function) string {
@@ -87,7 +87,9 @@ func Resolve(p *load.Program) *Roles {
 	}
 	if r.VerifyCore != nil {
 		mod, _, _ := ssau.Reachable(r.VerifyCore)
-		isBytesBool := func(f *ssa.Function) bool { return sigString(f) == "func(scalar []byte) bool" || strings.HasSuffix(sigString(f), "[]byte) bool") && f.Signature.Params().Len() == 1 }
+		isBytesBool := func(f *ssa.Function) bool {
+			return sigString(f) == "func(scalar []byte) bool" || strings.HasSuffix(sigString(f), "[]byte) bool") && f.Signature.Params().Len() == 1
+		}
 		r.ScMin = uniq("scMin", filter(mod, func(f *ssa.Function) bool { return isBytesBool(f) && !callsInto(f, "internal/ge25519") }), r.Errs)
 		r.SmallOrder = uniq("smallOrder", filter(mod, func(f *ssa.Function) bool {
 			return isBytesBool(f) && ssau.CallsTo(f, "internal/ge25519", "CofactorMultiply")
